@@ -7,6 +7,11 @@
    fiber_barrier_wait calls on one barrier initialised with [count];
    two = true is the code in /repo (20d3952: one waiter list per round parity),
    two = false the original one-list protocol (kept as a regression only).
+   The counter starts at 0, which is what fiber_barrier_init sets.  Barrier.init_at has an
+   extra [start] parameter (initial counter value, a whole number of completed rounds): it
+   exists for the lock-step cases only (long-lived barrier whose counter is near or beyond
+   2^32) and no theorem below is stated for start <> 0.  The model's counter is an
+   unbounded Z; the C counter is uint64 — guard: fewer than 2^64 arrivals.
 
    round_safe count x          : returned x t k -> count fibers entered their k-th wait
    round_safe_arrived count x  : returned x t k -> count DISTINCT fibers executed the
